@@ -1,6 +1,10 @@
 SPECIFICATION Spec
 CONSTANT Reps = {"a", "b", "c"}
-CONSTANT MaxPub = 3
+CONSTANT Starters = {"a"}
+CONSTANT MaxPub = 2
 CONSTANT MaxActs = 1
+CONSTANT StartOrder <- OrderAsCoded
+CONSTANT SignPolicy = "strict"
+CONSTANT JoinTrusts = FALSE
 INVARIANT IgnoresUntrusted
 INVARIANT LonerKeepsOwn
